@@ -25,6 +25,9 @@ using namespace yorel::yomm2;
 #ifndef INDIRECT
 #define INDIRECT 0
 #endif
+#ifndef PROJ
+#define PROJ 0
+#endif
 #if INDIRECT
 #define IND_FACET , policy::basic_indirect_vptr<P>
 #else
@@ -47,6 +50,10 @@ struct rec_error : virtual policy::error_handler {
 struct sym_rtti : policy::rtti {
     template<typename T> static type_id static_type() { return 0; }
     template<typename T> static type_id dynamic_type(const T&) { return 0; }
+#if PROJ
+    // many-to-one projection: ids 2k and 2k+1 denote the same class
+    static type_id type_index(type_id id) { return id >> 1; }
+#endif
 };
 
 #if CHECKED
@@ -127,6 +134,9 @@ extern "C" void cbmc_main() {
         r->nids = ((NIDS_MASK >> i) & 1) ? 2 : 1;  // ids per class: harness parameter (keeps the id loops concrete)
         for (unsigned k = 0; k < 2; k++) {
             r->ids[k] = nondet_u64();
+#if PROJ
+            if (k == 1) r->ids[1] = r->ids[0] ^ 1;  // the class's second id projects to the same class key
+#endif
             if (i < n && k < r->nids) {
                 VERIF_ASSUME(r->ids[k] != invalid_type);
 #ifdef IDBITS
